@@ -412,6 +412,8 @@ class CFG:
         generating = self.get_generating_symbols()
         reachables = self.get_reachable_symbols()
         if (len(nullables) != 0 or len(unit_pairs) != len(self._variables) or
+                any(len(x.body) == 1 and isinstance(x.body[0], Variable)
+                    for x in self._productions) or
                 len(generating) !=
                 len(self._variables) + len(self._terminals) or
                 len(reachables) !=
